@@ -18,14 +18,24 @@ MIXED = ("Mixed. Level P obligations (proved for all inputs by pyvc+z3 or decide
 QUICK_CAP, QUICK_CAP_EXPLORE = 450, 260
 
 
-def run_b(rep, cells, props, explore=False, tier="quick"):
+def run_b(rep, cells, props, explore=False, tier="quick", cap=None):
     if tier == "quick":
-        cap = QUICK_CAP_EXPLORE if explore else QUICK_CAP
+        cap = cap or (QUICK_CAP_EXPLORE if explore else QUICK_CAP)
         if len(cells) > cap:
-            # deterministic stride sample (rotated by the seed) - the thorough tier runs everything
-            step = len(cells) / cap
-            off = common.seed() % max(1, int(step))
-            cells = [cells[min(len(cells) - 1, int(off + i * step))] for i in range(cap)]
+            # deterministic sample - the thorough tier runs everything.  Small special families (few cells per layout tag, e.g. the
+            # stand-alone envelope or stale-cache worlds) are kept whole, the large enumerated families are stride-sampled (rotated by the seed)
+            groups = {}
+            for c in cells:
+                groups.setdefault(c.get("layout", ""), []).append(c)
+            keep, rest = [], []
+            for tag, g in groups.items():
+                (keep if len(g) <= 30 and len(keep) + len(g) <= cap // 3 else rest).extend(g)
+            room = cap - len(keep)
+            if len(rest) > room:
+                step = len(rest) / room
+                off = common.seed() % max(1, int(step))
+                rest = [rest[min(len(rest) - 1, int(off + i * step))] for i in range(room)]
+            cells = keep + rest
             rep.bounds["quick_sampling"] = f"families larger than {cap} cells are stride-sampled in the quick tier (thorough runs all)"
     rep.bounds["cells"] = rep.bounds.get("cells", 0) + len(cells)
     if explore:
